@@ -273,14 +273,16 @@ impl Default for GdsGenOpts {
 const NONASCII: &[&str] = &["é", "ß", "Ω", "中", "😀", "ñ", "→", "ж"];
 
 pub fn gen_string(src: &mut Src, o: &GdsGenOpts) -> String {
-    let class = src.weighted(&[6, 2, 2, 3, 3, 2]);
+    let class = src.weighted(&[12, 4, 4, 6, 6, 4, if o.large_records { 1 } else { 0 }]);
     let len = match class {
         0 => src.usize_in(3, 12),
         1 => 0,
         2 => 1,
         3 => 2 * src.usize_in(1, 22),
         4 => 2 * src.usize_in(1, 21) + 1,
-        _ => 2,
+        5 => 2,
+        // a few hundred bytes: longer than any small fixed buffer, far below the record limit
+        _ => *src.pick(&[127usize, 128, 129, 255, 256, 257, 258, 300, 511, 512, 513, 1000]),
     };
     let len = if len == 0 && !o.empty_strings { 1 } else { len };
     let mut s = String::new();
@@ -388,8 +390,20 @@ fn gen_xy(src: &mut Src, o: &GdsGenOpts, big: &mut bool) -> Vec<(i32, i32)> {
         let p = gen_pt(src);
         return (0..n).map(|i| (p.0.wrapping_add(i as i32), p.1.wrapping_sub((i % 7) as i32))).collect();
     }
+    if o.large_records && src.prob(1, 80) {
+        // a few hundred points: several blocks of any block-wise writer, the last one partial or full
+        let n = *src.pick(&[63usize, 64, 65, 127, 128, 129, 255, 256, 257, 300, 511, 512, 513, 700, 1024, 1025]);
+        let p = gen_pt(src);
+        return (0..n).map(|i| (p.0.wrapping_add((i * 3) as i32), p.1.wrapping_sub((i % 5) as i32))).collect();
+    }
     let n = src.weighted(&[1, 1, 2, 2, 3, 3, 2, 1, 1, 1, 1, 1, 1]);
-    (0..n).map(|_| gen_pt(src)).collect()
+    let mut v: Vec<(i32, i32)> = (0..n).map(|_| gen_pt(src)).collect();
+    // the same point twice in a row is data like any other (a doubled vertex)
+    if n >= 1 && src.prob(1, 8) {
+        let i = src.index(n);
+        v.insert(i, v[i]);
+    }
+    v
 }
 fn opt<T>(src: &mut Src, f: impl FnOnce(&mut Src) -> T) -> Option<T> {
     if src.bool() {
